@@ -243,7 +243,7 @@ def int_corpus(lo, hi):
     return out
 
 
-HEX_CORPUS = ["ff00aa", "FF00AA", "Ff00aA", "000000", "ff00a", "ff00aag", "gg00aa", "ff00a ", " f00aa", "ff 0aa",
+HEX_CORPUS = ["ff  ff", "ab cd ", "ff ff ff", "00 ff\tff", "  ffff", "ff 88 00", "ff\x0bff", "f f f ", "ff00aa", "FF00AA", "Ff00aA", "000000", "ff00a", "ff00aag", "gg00aa", "ff00a ", " f00aa", "ff 0aa",
               "ｆｆ００ａａ", "٠٠٠٠٠٠", "٠٠٠٠٠٠٠٠", "", "f", "ff00aa00", "FF00AA00", "ff00aa0", "ff00aa000", "ff00aa0g",
               "0x00aa", "0x00aa00", "ff-0aa", "ff\n0aa", "ff00aa\n", "ÿÿÿÿÿÿ", "ff00aaff00", "12345", "1234567"]
 GPS_CORPUS = ["1,2,3", "1,2", "1,2,3,4", "55.722526,13.017972,18", " 1 , 2 , 3 ", "1,,3", ",,", ",", "",
